@@ -136,6 +136,20 @@ def atoms(expr, pol=True, resolver=None):
             for v in expr.values:
                 out.extend(atoms(v, pol, resolver))
             return out
+        # `x == A or x == B or x in (C, D)` (and the De Morgan dual under `not`): one membership fact, same as `x in (A, B, C, D)`
+        subs = [atoms(v, pol, resolver) for v in expr.values]
+        if all(len(sub) == 1 and sub[0][0] in ("eq", "in") and sub[0][3] is True and isinstance(sub[0][2], tuple) and sub[0][2][0] == "c" for sub in subs) \
+                and len({sub[0][1] for sub in subs}) == 1:
+            vals = set()
+            try:
+                for sub in subs:
+                    if sub[0][0] == "eq":
+                        vals.add(sub[0][2][1])
+                    else:
+                        vals |= set(sub[0][2][1])
+                return [_mk(("in", subs[0][0][1], ("c", frozenset(vals)), True), expr)]
+            except TypeError:
+                pass
         # disjunctive knowledge: keep as one opaque fact over the canonical forms of its parts
         parts = []
         for v in expr.values:
